@@ -694,6 +694,9 @@ impl CheckedEuclid for BigUint {
     }
 
     fn checked_div_rem_euclid(&self, v: &Self) -> Option<(Self, Self)> {
+        if v.is_zero() {
+            return None;
+        }
         Some(self.div_rem_euclid(v))
     }
 }
